@@ -1,4 +1,5 @@
 import PdshVerif.Opt.WcollStrings
+import PdshVerif.Opt.WcollBytes
 
 /-! the reader refines `Opt/WcollSpec.lean` on well-formed files whose lines fit the buffer -/
 namespace PdshVerif.Opt.Wcoll
@@ -187,7 +188,7 @@ theorem content_rel (fs : FS) (topdir : Str) (mode : LineMode) (inc : Str → Ct
   have hch := chunks_lines mode.cap ls last (fun l hl => ⟨(hls l hl).1.nonl, (hls l hl).2⟩)
     hlast.nonl hlastlen
   have hsp := spec_lines_join ls last (fun l hl => (hls l hl).1.nonl) hlast.nonl
-  unfold chunks
+  rw [chunks_eq]
   rw [hch, hsp, List.foldl_append, List.foldl_append]
   have h1 := fold_rel fs topdir inc incl hinc ls (fun l hl => (hls l hl).1) c a h
   split
